@@ -49,8 +49,8 @@ Theorem C09_nv_relocation_frees_id0 : forall k s c, Good k s c -> nv k = true ->
 Proof. exact nv_relocation_frees_id0. Qed.
 
 (* The statement at full strength has no `avoids_findings` hypothesis.  The model of
-   the current code refutes it on two input classes (recorded findings); the check
-   replays both witnesses on the implementation on every run. *)
+   the current code refutes it on one input class (a recorded finding); the check
+   replays the witness on the implementation on every run. *)
 Definition no_alloc_fault_unrestricted : Prop :=
   forall k ops, within_budget k ops -> has_fault (run0 k ops) = false.
 
@@ -61,38 +61,20 @@ Theorem C09_no_alloc_fault_unrestricted_refuted_carbon_gate :
   exists k ops, within_budget k ops /\ has_fault (run0 k ops) = true.
 Proof. exists (fst witness_carbon_gate), (snd witness_carbon_gate). vm_compute. split; reflexivity. Qed.
 
-(* C09:nv-epr-context-preallocates-pair-ids *)
-Definition witness_nv_context : cfg * list op := (mkCfg 3 true false, [EprContext 2 false; Flush]).
-Theorem C09_no_alloc_fault_unrestricted_refuted_nv_context :
-  exists k ops, within_budget k ops /\ has_fault (run0 k ops) = true.
-Proof. exists (fst witness_nv_context), (snd witness_nv_context). vm_compute. split; reflexivity. Qed.
-
-(* C09:sequential-keep-handles-stay-active — here no flush faults, but the states disagree:
-   the full statement of agree_reachable (without `avoids_findings`) is refuted *)
-Definition agree_reachable_unrestricted : Prop :=
-  forall k ops, within_budget k ops -> Forall (good_obs k) (run0 k ops).
-Definition witness_sequential_keep : cfg * list op := (mkCfg 3 false false, [EprKeepSeq 2 false; Flush]).
-Theorem C09_agree_reachable_unrestricted_refuted_sequential_keep :
-  exists k ops o, within_budget k ops /\ In o (run0 k ops) /\ ~ good_obs k o.
-Proof.
-  exists (fst witness_sequential_keep), (snd witness_sequential_keep),
-         (OFlush [0; 0] [CEpr 0; CUse [0]; CFree 0; CEpr 0; CUse [0]; CFree 0] [] None).
-  split; [vm_compute; reflexivity|]. split; [vm_compute; right; left; reflexivity | apply bad_obs_dup].
-Qed.
-
 (* non-vacuity: a program on four-qubit NV hardware with the transpiler that stays in
    budget and outside the recorded classes, with a flushed qubit relocated by a
-   measurement, a two-pair keep, a carbon-carbon gate while ID 0 is occupied, three
-   flushes; the hypotheses hold and so does the conclusion, by computation *)
+   measurement, a two-pair keep, a carbon-carbon gate while ID 0 is occupied, a
+   sequential keep, a two-pair EPR context, three flushes; the hypotheses hold and so does the conclusion, by computation *)
 Definition example_prog : list op :=
-  [NewQubit; Flush; NewQubit; MeasureDestructive 1; EprKeep 2 false; Gate2 0 2; Flush; Free 3; NewQubit; Flush].
+  [NewQubit; Flush; NewQubit; MeasureDestructive 1; EprKeep 2 false; Gate2 0 2; Flush; Free 3; EprKeepSeq 2 true;
+   Free 2; EprContext 2 false; NewQubit; Flush].
 Example C09_nonvacuous :
   let k := mkCfg 4 true true in
   always in_budget k init_sdk example_prog = true /\
   always outside_findings k init_sdk example_prog = true /\
   has_fault (run0 k example_prog) = false /\
-  List.length (run0 k example_prog) = 10 /\
-  option_map ids (sdk_after k init_sdk example_prog) = Some [2; 1; 0].
+  List.length (run0 k example_prog) = 13 /\
+  option_map ids (sdk_after k init_sdk example_prog) = Some [2; 0].
 Proof. vm_compute. repeat split; reflexivity. Qed.
 
 (* ids_reused on an instance: three qubits on generic hardware, the middle one freed:
@@ -118,5 +100,3 @@ Print Assumptions C09_no_alloc_fault.
 Print Assumptions C09_ids_reused.
 Print Assumptions C09_nv_relocation_frees_id0.
 Print Assumptions C09_no_alloc_fault_unrestricted_refuted_carbon_gate.
-Print Assumptions C09_no_alloc_fault_unrestricted_refuted_nv_context.
-Print Assumptions C09_agree_reachable_unrestricted_refuted_sequential_keep.
